@@ -24,6 +24,7 @@ From Pandora Require Model.Refine Model.Filters Model.CrossCheck Model.Interp Sp
 From Pandora Require Import Model.IntervalPipeline.
 From Pandora Require Proofs.IntervalPipelineP Proofs.IntervalRefineP.
 From Pandora Require Gen.RefineConsts Gen.Constants Gen.ValConst Model.Mirror Gen.Callbacks.
+From Pandora Require Gen.PointInterval Proofs.PointIntervalGenP Proofs.PointIntervalGenIntervalP.
 Import ListNotations.
 Open Scope Z_scope.
 
@@ -135,6 +136,41 @@ Theorem C09_stored_interval_is_searched : forall s dmin dmax, 0 < s -> dmin <= d
   /\ (forall k, 0 <= k < nb_disp s dmin dmax ->
         (fst iv <= sample_q s dmin k)%Q /\ (sample_q s dmin k <= snd iv)%Q).
 Proof. exact stored_interval_is_searched. Qed.
+
+(* ---- the same three facts on the index arithmetic REGENERATED from the source at every run
+   (Gen/PointInterval.v, module G: translator/gen_point_interval.py, Python ast of cv_masked and
+   get_min_max_from_grid, fail-closed; Proofs/PointIntervalGenP.v proves generated = model).  Per-run obligations:
+   a change of `dsp = int((disp - dmin) * self._subpix)`, of the origin of the axis or of the out-of-interval test
+   regenerates a text for which these no longer check. *)
+Module G := Pandora.Gen.PointInterval.
+
+(* one generated iteration of `for disp in cost_volume.coords["disp"].data` on sample k of the axis whose origin is
+   get_min_max_from_grid(disp_min, disp_max)[0]: the plane that receives the masks is k, which is also the value of
+   the float expression on the rational coordinate of the sample; the shifted right image is the fractional part *)
+Theorem C09_gen_dsp_index_consistent : forall s ny nx g h nxl nxr k, 0 < s ->
+  let dmin := fst (G.get_min_max_from_grid ny nx g h) in
+  let '(i, pq, im, dsp) := G.cv_masked_loop s ny nx g h nxl nxr (disp_scaled s dmin k) in
+  dsp = k /\ dsp = dsp_float s dmin (sample_q s dmin k)
+  /\ i = i_right s (disp_scaled s dmin k) /\ i = i_right_float s (sample_q s dmin k).
+Proof. exact PointIntervalGenIntervalP.gen_dsp_index_consistent. Qed.
+
+(* the generated test of `for dsp in range(nd_)`: a cost is set to NaN exactly when the sample of its plane is
+   outside the pixel's own [min, max] (the specification's in_interval), and it is the test of the model *)
+Theorem C09_gen_interval_test : forall s g h r c D,
+  G.cv_masked_out_of_range s g h r c D = negb (in_interval s g h r c D)
+  /\ forall (A : Type) dmin (cv : Z -> Z -> Z -> option A) j,
+       mask_interval s dmin g h cv r c j
+       = if G.cv_masked_out_of_range s g h r c (disp_scaled s dmin j) then None else cv r c j.
+Proof. exact PointIntervalGenIntervalP.gen_interval_test. Qed.
+
+(* the generated get_min_max_from_grid: the attained extrema of the grids *)
+Theorem C09_gen_axis_origin : forall ny nx g h, 1 <= ny -> 1 <= nx ->
+  let mm := G.get_min_max_from_grid ny nx g h in
+  (forall r c, 0 <= r < ny -> 0 <= c < nx -> fst mm <= g r c)
+  /\ (exists r c, 0 <= r < ny /\ 0 <= c < nx /\ fst mm = g r c)
+  /\ (forall r c, 0 <= r < ny -> 0 <= c < nx -> h r c <= snd mm)
+  /\ (exists r c, 0 <= r < ny /\ 0 <= c < nx /\ snd mm = h r c).
+Proof. exact PointIntervalGenIntervalP.gen_axis_origin. Qed.
 
 (* ---- winner-takes-all on the volume (C03's model on C02's model) *)
 
@@ -542,3 +578,6 @@ Print Assumptions C09_cbca_plane_ext.
 Print Assumptions C09_cbca_slice.
 Print Assumptions C09_cbca_slice_of_nested_intervals.
 Print Assumptions C09_cbca_grid_inside_refuted.
+Print Assumptions C09_gen_dsp_index_consistent.
+Print Assumptions C09_gen_interval_test.
+Print Assumptions C09_gen_axis_origin.
